@@ -149,12 +149,16 @@ Definition publish_enc (p : publish) : list bytes :=
 Definition publish_len (p : publish) : N :=
   2 + len (p_topic p) + qospid_len (p_qospid p) + len (p_payload p).
 
+(* the same length from the field lengths only (used for packets too large to materialise) *)
+Definition publish_shape_len (topic_len qos payload_len : N) : N :=
+  2 + topic_len + (if qos =? 0 then 0 else 2) + payload_len.
+
 (* ---------- Subscribe / Suback / Unsubscribe ---------- *)
 Definition filter_read (prof : profile) : reader tfilter :=
   s <- read_string ;; lift_outcome (filter_try prof s).
 
 Fixpoint subscribe_loop (prof : profile) (fuel : nat) (rl : N) (acc : list (tfilter * N)) : reader (list (tfilter * N)) :=
-  if rl =? 0 then ret (rev acc) else
+  if rl =? 0 then ret (rev' acc) else
   match fuel with
   | O => rpanic SiteFuel
   | S f =>
@@ -180,7 +184,7 @@ Definition subscribe_return_code_of_u8 (v : N) : outcome N :=
   if (v =? 128) || (v <? 3) then Ok v else Err (InvalidQos v).
 
 Fixpoint suback_loop (fuel : nat) (rl : N) (acc : list N) : reader (list N) :=
-  if rl =? 0 then ret (rev acc) else
+  if rl =? 0 then ret (rev' acc) else
   match fuel with
   | O => rpanic SiteFuel
   | S f =>
@@ -198,7 +202,7 @@ Definition suback_enc (s : suback) : list bytes := be16 (sa_pid s) :: map (fun c
 Definition suback_len (s : suback) : N := 2 + N.of_nat (length (sa_codes s)).
 
 Fixpoint unsubscribe_loop (prof : profile) (fuel : nat) (rl : N) (acc : list tfilter) : reader (list tfilter) :=
-  if rl =? 0 then ret (rev acc) else
+  if rl =? 0 then ret (rev' acc) else
   match fuel with
   | O => rpanic SiteFuel
   | S f =>
@@ -325,6 +329,9 @@ Definition encode (prof : profile) (p : packet) : outcome varbytes :=
          | None => Panic SiteUnreachable
          end
   end.
+
+(* length of what Packet::encode produces / Packet::encode_len, from the body length alone *)
+Definition encode_shape (blen : N) : outcome N := total_len blen.
 
 (* Packet::encode_len *)
 Definition encode_len (p : packet) : outcome N :=
